@@ -576,6 +576,13 @@ func runPlan(p *Plan, faultAt int) (*CaseJ, int) {
 		}
 		c.Events = append(c.Events, ev)
 	}
+	if !p.Marker && (len(c.Notes) > 0 || len(bids) != len(p.Branches)) {
+		// a generated statement failed in phase one (the generator avoids that; after such a failure the
+		// proxy leaves the local transaction open, C02's subject): no verdict from this case
+		excl("a generated statement failed")
+		c.Oracle = []string{}
+		return c, 0
+	}
 	if p.Marker {
 		if !sameDB(d1, d0, p.Tables) {
 			bad("C10 marker: the late phase one changed durable business data")
@@ -845,7 +852,14 @@ func Run(args map[string]string) {
 			rng := hutil.NewRng(seed*1000003 + uint64(len(sn.stream))*7919 + uint64(sn.stream[2]))
 			for i := 0; i < n; i++ {
 				r := rng.Fork(uint64(i))
-				emit(genPlan(r, sn.stream, seed, i), r, kf)
+				p := genPlan(r, sn.stream, seed, i)
+				for try := 0; try < 6 && !runShadow(p).ok; try++ {
+					p = genPlan(r, sn.stream, seed, i) // a statement of the plan would fail (key collision): draw again
+				}
+				if !runShadow(p).ok {
+					continue
+				}
+				emit(p, r, kf)
 			}
 		}
 	}
